@@ -147,3 +147,53 @@ theorem postPass_lens (d : Schema) (info : Info) (h : postPass d = .ok info) :
             rw [(cvsFinish_lens _ _ _ _ _ _ _ hcvs).2, hl]
 
 end PnVerif.Header
+
+namespace PnVerif.Header
+open PnVerif.Spec PnVerif.Layout
+
+theorem decodeWhole_post (file : Bytes) (h : Hdr) (info : Info) (hd : decodeWhole file = .ok (h, info)) :
+    postPass h = .ok info := by
+  unfold decodeWhole at hd
+  split at hd
+  · contradiction
+  · split at hd
+    · contradiction
+    · split at hd
+      · contradiction
+      · rename_i hp
+        simp only [Except.ok.injEq, Prod.mk.injEq] at hd
+        obtain ⟨rfl, rfl⟩ := hd
+        exact hp
+
+theorem cvsFinish_extent (xsz : Nat) (st : CvsState) (a b c : Nat) (shapes : List (List Nat)) (lens : List Nat)
+    (h : cvsFinish xsz st = .ok (a, b, c, shapes, lens)) : xsz ≤ a := by
+  unfold cvsFinish at h
+  split at h
+  · contradiction
+  · simp only [] at h
+    split at h <;> split at h <;> first
+      | contradiction
+      | (rename_i hc; simp only [Except.ok.injEq, Prod.mk.injEq] at h; obtain ⟨rfl, _⟩ := h; omega)
+
+theorem postPass_extent (d : Schema) (info : Info) (h : postPass d = .ok info) (hv : d.vars ≠ []) :
+    info.xsz ≤ info.beginVar := by
+  unfold postPass at h
+  simp only [] at h
+  split at h
+  · contradiction
+  · rename_i beginVar beginRec recsize shapes lens hcvs
+    split at h
+    · contradiction
+    · split at h
+      · contradiction
+      · simp only [Except.ok.injEq] at h
+        subst h
+        show Hdr.len d ≤ beginVar
+        unfold computeVarShape at hcvs
+        split at hcvs
+        · rename_i h0; exact absurd (List.eq_nil_of_length_eq_zero h0) hv
+        · split at hcvs
+          · contradiction
+          · exact cvsFinish_extent _ _ _ _ _ _ _ hcvs
+
+end PnVerif.Header
